@@ -189,7 +189,7 @@ func c39RunMeta(cs c39Case, scheme *runtime.Scheme) c39Out {
 			if tp.Topic != nil {
 				name = *tp.Topic
 			}
-			tps[i] = fmt.Sprintf("mkMTopic %s %s", cqStr(name), cqList(parts))
+			tps[i] = fmt.Sprintf("mkMTopic %s %s %s", cqStr(name), cqZ(int64(tp.ErrorCode)), cqList(parts))
 			if admissible && (i >= len(cs.Topics) || name != cs.Topics[i].Name || len(tp.Partitions) != int(cs.Topics[i].Parts)) {
 				fail("partitions-not-dense", fmt.Sprintf("rendered topic %d is %q with %d partitions, spec says %v", i, name, len(tp.Partitions), cs.Topics))
 			}
